@@ -4,6 +4,7 @@ package seats
 import (
 	"fmt"
 	"sort"
+	"time"
 
 	sm "github.com/weedbox/pokerface/seat_manager"
 
@@ -12,7 +13,7 @@ import (
 
 // SOp is one seat-manager operation.
 type SOp struct {
-	K      string `json:"k"`                // join | joinany | seat | reserve | leave | next | restore | reset
+	K      string `json:"k"`                // join | joinany | seat | reserve | leave | next | restore | reset | peek
 	S      int    `json:"s"`                // seat id (join/seat/reserve/leave); may be out of range
 	Target int    `json:"target,omitempty"` // joinany: the free seat the history continues with
 	Res    string `json:"res,omitempty"`    // observed result, informational
@@ -177,6 +178,9 @@ func (r *Run) trace() string {
 
 // Step executes one operation and checks the clauses of the active property.
 func (r *Run) Step(op SOp) *vlib.Violation {
+	vlib.StartWatchdog(90 * time.Second)
+	vlib.Busy()
+	defer vlib.Idle()
 	m := r.M
 	preP := r.playable()
 	preD := seatID(m.Dealer())
@@ -462,6 +466,28 @@ func (r *Run) Step(op SOp) *vlib.Violation {
 				r.Facts["gap-near-button"] = true
 			}
 		}
+	case "peek":
+		// read-only calls between two operations (what a table does to render its
+		// seats): none of them is a seat operation, none may change anything - the
+		// invariants below and the following operations are the judge. GetPlayableSeats
+		// needs a dealer, so it is only asked once a hand has been set up.
+		func() {
+			defer func() { recover() }()
+			m.GetAvailableSeats()
+			m.GetAvailableSeatCount()
+			m.GetActiveSeats()
+			m.GetNormalizeSeats(op.S)
+			m.GetSeat(op.S)
+			m.GetSeatCount()
+			m.GetPlayerCount()
+			m.GetPlayableSeatCount()
+			if m.Dealer() != nil {
+				m.GetPlayableSeats()
+			}
+		}()
+		op.Res = "ok"
+		r.Ops = append(r.Ops, op)
+		r.Facts["peek"] = true
 	case "reset":
 		// the table is recycled: every seat is emptied
 		cr = r.call(func() (int, error) { m.Reset(); return 0, nil })
@@ -641,7 +667,7 @@ func Replay(c *Case, prop string) *vlib.Violation {
 		for i, o := range c.Ops {
 			ops[i] = o
 			if rot > 0 {
-				if o.K != "next" && o.K != "restore" && o.S >= 0 && o.S < c.Max {
+				if o.K != "next" && o.K != "restore" && o.K != "peek" && o.S >= 0 && o.S < c.Max {
 					ops[i].S = (o.S + rot) % c.Max
 				}
 				if o.K == "joinany" && o.Target >= 0 && o.Target < c.Max {
